@@ -51,6 +51,7 @@ pub fn t2_all() -> Vec<T2Profile> {
         t2("t2-ackpressure", T2Kind::AckPressure, None),
         t2("t2-exhaust", T2Kind::Exhaust, Some(false)),
         t2("t2-graceful", T2Kind::Graceful, Some(false)),
+        t2("t2-push-goaway", T2Kind::PushGoaway, Some(false)),
     ]
 }
 
@@ -132,6 +133,16 @@ pub fn t1_sweep_push(name: &'static str) -> T1Profile {
     p
 }
 
+/// The request handle goes first, streams (some of them reset) finish later: the client
+/// connection has to notice by itself that nothing is left and close.
+pub fn t1_selfclose() -> T1Profile {
+    let mut p = T1Profile::base("t1-selfclose");
+    p.work.aborts = true;
+    p.idle_check = false;
+    p.max_streams = 3;
+    p
+}
+
 pub fn t1_capacity() -> T1Profile {
     let mut p = T1Profile::base("t1-capacity");
     p.max_streams = 10;
@@ -199,6 +210,7 @@ pub fn all_scenarios() -> Vec<Scenario> {
         Scenario::T1(t1_conc()),
         Scenario::T1(t1_headers()),
         Scenario::T1(t1_graceful()),
+        Scenario::T1(t1_selfclose()),
         Scenario::T1(t1_capacity()),
         Scenario::T1(t1_inject()),
         Scenario::T1(t1_inject_fatal()),
@@ -278,10 +290,10 @@ pub fn entries_for(prop: &str) -> Vec<Entry> {
             e(t1(t1_fatal_push()), 3000, 100_000),
             e(t1(t1_shutdown()), 3000, 100_000),
         ],
-        "C15" => vec![e(t1(t1_shutdown()), 6000, 250_000), e(t1(t1_graceful()), 4000, 150_000), e(t2s("t2-graceful"), 5000, 200_000), e(t1(t1_fatal()), 1500, 50_000)],
+        "C15" => vec![e(t1(t1_shutdown()), 6000, 250_000), e(t1(t1_graceful()), 4000, 150_000), e(t2s("t2-graceful"), 5000, 200_000), e(t2s("t2-push-goaway"), 2000, 60_000), e(t1(t1_fatal()), 1500, 50_000)],
         "C16" => vec![e(t1(t1_capacity()), 8000, 250_000), e(t1(t1_coop_settings()), 3000, 100_000), e(t1(t1_aborts()), 3000, 100_000), e(t1(t1_conc()), 2000, 60_000)],
         "C20" => vec![e(t1(t1_inject()), 12_000, 400_000), e(t1(t1_inject_fatal()), 4000, 100_000)],
-        "C08" => vec![e(t2s("t2-corrupt"), 8000, 300_000), e(t2s("t2-violation"), 3000, 100_000), e(t2s("t2-flood"), 1500, 40_000), e(t2s("t2-hpack"), 2000, 60_000), e(t2s("t2-malformed"), 2000, 60_000), e(t1(t1_fatal()), 2000, 60_000)],
+        "C08" => vec![e(t2s("t2-corrupt"), 8000, 300_000), e(t2s("t2-push-goaway"), 3000, 100_000), e(t2s("t2-violation"), 3000, 100_000), e(t2s("t2-flood"), 1500, 40_000), e(t2s("t2-hpack"), 2000, 60_000), e(t2s("t2-malformed"), 2000, 60_000), e(t1(t1_fatal()), 2000, 60_000)],
         "C09" => vec![e(t2s("t2-violation"), 8000, 300_000), e(t2s("t2-legal"), 6000, 200_000), e(t1(t1_aborts()), 3000, 100_000), e(t1(t1_coop()), 2000, 60_000), e(t1(t1_push()), 1500, 50_000)],
         "C11" => vec![e(t2s("t2-hpack"), 12000, 400_000)],
         "C13" => vec![e(t2s("t2-malformed"), 12000, 400_000)],
@@ -289,8 +301,8 @@ pub fn entries_for(prop: &str) -> Vec<Entry> {
         "C10" => vec![e(t1(t1_headers()), 4000, 150_000), e(t1(t1_coop()), 2000, 60_000), e(t2s("t2-ackpressure"), 4000, 150_000), e(t2s("t2-legal"), 3000, 100_000), e(t2s("t2-hpack"), 3000, 100_000), e(t1(t1_push()), 1500, 50_000)],
         "C12" => vec![e(t1(t1_coop()), 3000, 100_000), e(t1(t1_headers()), 3000, 100_000), e(t2s("t2-legal"), 3000, 100_000), e(t2s("t2-violation"), 2000, 60_000), e(t1(t1_aborts()), 1500, 50_000)],
         "C14" => vec![e(t1(t1_coop_settings()), 5000, 200_000), e(t2s("t2-ackpressure"), 5000, 200_000), e(t1(t1_graceful()), 3000, 100_000), e(t2s("t2-violation"), 2000, 60_000), e(t1(t1_aborts()), 2000, 60_000)],
-        "C17" => vec![e(t1(t1_aborts()), 8000, 250_000), e(t1(t1_conc()), 2000, 60_000), e(t1(t1_fatal()), 2000, 60_000)],
-        "C19" => vec![e(t1(t1_coop()), 4000, 150_000), e(t1(t1_aborts()), 4000, 150_000), e(t1(t1_conc()), 2000, 60_000), e(t1(t1_push_unadopted()), 1500, 50_000)],
+        "C17" => vec![e(t1(t1_aborts()), 7000, 250_000), e(t1(t1_shutdown()), 3000, 100_000), e(t1(t1_conc()), 2000, 60_000), e(t1(t1_fatal()), 2000, 60_000)],
+        "C19" => vec![e(t1(t1_coop()), 3500, 150_000), e(t1(t1_aborts()), 3500, 150_000), e(t1(t1_selfclose()), 3000, 100_000), e(t1(t1_conc()), 2000, 60_000), e(t1(t1_push_unadopted()), 1500, 50_000)],
         _ => vec![],
     }
 }
